@@ -5,7 +5,8 @@
    distance in the direction of the cell, ow = stored interface width (None | Some w, w >= 0 enforced by
    the setter), h = grid.typical_discretization > 0. *)
 From Coq Require Import Reals List Permutation ZArith QArith Bool.
-From PD Require Import Gen.Gen_shapes Model.Grid Model.Render Proofs.Profile Proofs.Render Proofs.C03.
+From PD Require Import Gen.Gen_shapes Model.Grid Model.Render Model.LocateSym Model.RenderSym Proofs.Profile
+  Proofs.Render Proofs.RenderSym Proofs.C03.
 Import ListNotations.
 
 Local Open Scope R_scope.
@@ -157,9 +158,36 @@ Theorem C03_emulsion_mask_or : forall g ds ds',
 Proof. exact emulsion_mask_or. Qed.
 Print Assumptions C03_emulsion_mask_or.
 
+(* grids with a symmetry centre / axis (PolarSym, SphericalSym: droplet at the origin; CylindricalSym: droplets on
+   the axis; Model/RenderSym.v): the sharp image is the indicator of `distance < radius` (strict), radius <= 0 renders
+   nothing, the value never increases with the distance, an emulsion is the cellwise OR whatever the droplet order *)
+Theorem C03_sharp_mask_sym_spec :
+  (forall r_lo dr rad n i, (i < n)%nat ->
+     nth_error (radial_mask r_lo dr rad n) i = Some (radial_inside r_lo dr rad i)) /\
+  (forall r_lo dr rad i,
+     (radial_inside r_lo dr rad i = true <->
+        0 <= rad /\ radial_centre r_lo dr i * radial_centre r_lo dr i < rad * rad) /\
+     (rad <= 0 -> radial_inside r_lo dr rad i = false) /\
+     (0 <= r_lo -> 0 < dr ->
+        (radial_inside r_lo dr rad i = true <-> radial_centre r_lo dr i < rad) /\
+        (forall j, (i <= j)%nat -> radial_inside r_lo dr rad j = true -> radial_inside r_lo dr rad i = true))) /\
+  (forall g c rad i j,
+     (cyl_inside g c rad i j = true <->
+        0 <= rad /\ cyl_r g i * cyl_r g i + (cyl_z g j - c) * (cyl_z g j - c) < rad * rad) /\
+     (rad <= 0 -> cyl_inside g c rad i j = false) /\
+     (forall i', 0 < cg_dr g -> (0 <= i <= i')%Z -> cyl_inside g c rad i' j = true -> cyl_inside g c rad i j = true)) /\
+  (forall g ds ds',
+     cyl_mask g ds = map (cyl_inside_any g ds) (all_cells [cg_nr g; cg_nz g]) /\
+     (forall idx, cyl_inside_any g ds idx = true <->
+        exists d, In d ds /\ cyl_inside g (fst d) (snd d) (nth 0 idx 0%Z) (nth 1 idx 0%Z) = true) /\
+     ((forall d, In d ds <-> In d ds') -> cyl_mask g ds = cyl_mask g ds')).
+Proof. exact sharp_mask_sym_spec. Qed.
+Print Assumptions C03_sharp_mask_sym_spec.
+
 (* non-vacuity: the hypotheses are met by concrete non-trivial inputs -- a periodic axis of a 4 x 3 grid,
    a disc straddling the periodic boundary whose image is neither empty nor full and which rolls by one
-   cell, a 3-d difference vector with and without distance, a valid width and value range *)
+   cell, a 3-d difference vector with and without distance, a valid width and value range, a centred sphere on a
+   radial grid with inner radius 1/2 and two on-axis spheres on a cylinder (one cell exactly on an interface) *)
 Example C03_nonvacuous :
   periodic_axis ex_grid 0 {| ncell := 4; alo := 0; ahi := 2; aper := true |} /\
   (mask_sphere ex_grid [1 # 4; 1 # 2] (3 # 4) =
@@ -167,5 +195,9 @@ Example C03_nonvacuous :
    mask_sphere ex_grid [3 # 4; 1 # 2] (3 # 4) =
      [false; true; false;  false; true; false;  false; true; false;  false; false; false]) /\
   (polar_angles [0; 3; 4] 5 = Some (Spher3 (4 # 5) 3 0) /\ polar_angles [0; 0; 0] 0 = Some (Spher3 1 0 0)) /\
-  (valid_width (Some 1%R) /\ valid_width None /\ (0 < 1)%R /\ (0 <= 1 / 2 <= 1)%R).
-Proof. exact (conj ex_periodic_axis (conj ex_mask (conj ex_angle ex_values))). Qed.
+  (valid_width (Some 1%R) /\ valid_width None /\ (0 < 1)%R /\ (0 <= 1 / 2 <= 1)%R) /\
+  (radial_mask (1 # 2) (1 # 2) (9 # 4) 6 = [true; true; true; false; false; false] /\
+   cyl_mask {| cg_nr := 2; cg_nz := 4; cg_R := 2; cg_zlo := - (1); cg_zhi := 1; cg_per := true |}
+            [(- (3 # 4), 3 # 4); (3 # 4, 1 # 2)] =
+     [true; true; false; false;  false; false; false; false]).
+Proof. exact (conj ex_periodic_axis (conj ex_mask (conj ex_angle (conj ex_values ex_sym_mask)))). Qed.
